@@ -14,7 +14,7 @@ import math
 import z3
 
 from .core import OutOfSubset, is_z3, z3num, z3bool, PyRaise
-from .values import NTuple, EnumVal, StrSeq, Tok, PyList, SliceVal, Ext, Opaque, Inst, FuncVal
+from .values import NTuple, EnumVal, StrSeq, Tok, PyList, SliceVal, Ext, Opaque, Inst, FuncVal, StrId
 
 pow2 = z3.Function("pow2", z3.IntSort(), z3.IntSort())
 ilog2 = z3.Function("ilog2", z3.IntSort(), z3.IntSort())
@@ -260,6 +260,13 @@ def equals(interp, a, b):
         if len(a) != len(b):
             return False
         return conj([equals(interp, x, y) for x, y in zip(a, b)])
+    if isinstance(a, StrId) or isinstance(b, StrId):
+        ia, ib = str_ident(a), str_ident(b)
+        if ia is None or ib is None:
+            if not isinstance(a, (str, StrSeq, StrId)) or not isinstance(b, (str, StrSeq, StrId)):
+                return False
+            raise OutOfSubset("equality of string identity with %r / %r" % (a, b))
+        return simp(ia == ib)
     if isinstance(a, (str, StrSeq)) and isinstance(b, (str, StrSeq)):
         if isinstance(a, str) and isinstance(b, str):
             return a == b
@@ -376,3 +383,27 @@ def truth(interp, v):
     if t is None:
         raise OutOfSubset("truthiness of %r" % (v,))
     return t
+
+
+_STR_LITS = {}
+
+
+def strlit(text):
+    """Identity term of a string literal; distinct literals get distinct identities (the
+    Distinct constraint is added to every query that mentions two of them, see smt.py)."""
+    if text not in _STR_LITS:
+        _STR_LITS[text] = z3.Int("strlit!%s" % text)
+    return _STR_LITS[text]
+
+
+def str_ident(v):
+    if isinstance(v, StrId):
+        return v.ident
+    if isinstance(v, str):
+        return strlit(v)
+    if isinstance(v, StrSeq):
+        if v.is_literal():
+            return strlit(v.literal())
+        if len(v.parts) == 1 and isinstance(v.parts[0], Tok) and is_z3(v.parts[0].src):
+            return v.parts[0].src if v.parts[0].klass == "strid" else None
+    return None
